@@ -77,6 +77,7 @@ theorem freelist_no_mark_no_parked (c : Cfg) (hc : GoodCfg c) (ops : List Op)
         · split <;> try rfl
           split <;> rfl
         · split <;> rfl
+      | list => rfl
   have hp := marked_nil_parked_nil hI (by rw [hmk _ _ hm]; rfl)
   refine ⟨hp, ?_⟩
   have := hI.perm
